@@ -129,7 +129,11 @@ def check_fill(case, rec):
 @st.composite
 def gen_mps(draw, tier):
     Lmax = 6 if tier == 'quick' else 8
-    return {'obj': draw(mps_desc(Lmin=1, Lmax=Lmax, Dmax=5 if tier == 'quick' else 8)), 'mode': draw(st.sampled_from(['left', 'right']))}
+    obj = draw(mps_desc(Lmin=1, Lmax=Lmax, Dmax=5 if tier == 'quick' else 8))
+    sc = draw(st.sampled_from([None, None, None, 1e-3, 2e3]))
+    if sc is not None and obj['style'] != 'intdtype':
+        obj['scale'] = sc
+    return {'obj': obj, 'mode': draw(st.sampled_from(['left', 'right']))}
 
 
 @st.composite
